@@ -9,7 +9,7 @@ PROPERTY = "C12"
 LEVEL = "exploration"
 RULE = (
     "fields: EXHAUSTIVE per field - customer 0..99999 except 9999, project 0..9999, device 0..9999, version 0..99, each range completely with the other fields at "
-    "fixed and PRNG values, with and without a name: str() must equal the harness's own formatter, create_from_str(str(id)) == id, and str(create_from_str(t)) == t. "
+    "fixed and PRNG values, with and without a name: str() must equal the harness's own formatter, create_from_str(str(id)) == id, and str(create_from_str(t)) == t; the parsed identifier is then edited and the same text parsed again (the second result denotes the text, the first keeps its edits). "
     "names: Hypothesis names (plain, containing '(version NN)', digits and dashes, text that looks like the numeric form, inner/edge spaces) in numeric and name-only "
     "identifiers, same three relations. settings: configurations with every subset of the 0x0620 naming values at byte widths 1..4 -> create_from_prj_settings / "
     "create_from_dev_settings fields equal the big-endian integers / decoded names put in, name-only fallback exactly when the numeric scheme is incomplete, the "
@@ -72,6 +72,19 @@ def roundtrip(fields, rec=None):
         raise Violation("str(create_from_str(%r)) raised %s: %s" % (text, type(e).__name__, e))
     if again != text:
         raise Violation("str(create_from_str(t)) != t: %r -> %r" % (text, again))
+    # every parse gives an identifier of its own: the caller edits the one it got (version, name), parses the SAME text again - the new result
+    # denotes the text, and the edited one keeps its edits
+    back.version = (f["version"] + 1) % 100
+    back.name = "edited"
+    try:
+        third = ConfigId.create_from_str(text)
+        third_text = str(third)
+    except Exception as e:
+        raise Violation("second create_from_str(%r) (after the first result was edited) raised %s: %s" % (text, type(e).__name__, e))
+    if third_text != text or obs(third) != obs(ConfigId(f["customer"], f["project"], f["device"], f["version"], f["name"])):
+        raise Violation("create_from_str(%r) a second time, after the caller edited the first result (version, name), gives %r printing as %r" % (text, obs(third), third_text))
+    if third is back or (back.version, back.name) != ((f["version"] + 1) % 100, "edited"):
+        raise Violation("two parses of %r return identifiers that are not independent objects" % (text,))
     # the identifier is a mutable object with public attributes: after an attribute is assigned, the text and the derived views follow
     # (values 9999 / None are avoided here: the 'unknown' normalisation is the constructor's business)
     g = dict(f)
